@@ -101,6 +101,16 @@ def corruptions(g, rng):
             continue
         tgt.fields["input"][field] = val
         yield "illtyped-" + kind, p
+    # optional members are typed like plain ones: a value that may be absent at run time must still fit when it is present
+    if last is not first:
+        from ..model import Opt
+        for kind, field, node in (("wait-optional-string-for-int", "n", Opt(Ref(first.name, "outputs", "success", "tag"), True)),
+                                  ("soft-optional-string-for-int", "n", Opt(Ref(first.name, "outputs", "success", "tag"), False)),
+                                  ("wait-optional-object-for-bool", "b", Opt(Ref(first.name, "outputs", "success"), True)),
+                                  ("wait-optional-input-string-for-list", "l", Opt(In("tag"), True))):
+            p = clone()
+            p.step(last.name).fields["input"][field] = node
+            yield "illtyped-" + kind, p
     # a list literal whose first item is fine and a later one is not (items of every position have to be checked)
     for kind, lst in (("map-item", ["fine", {"a": "map"}]), ("list-item", ["fine", "also", ["nested"]]), ("expr-object-item", ["fine", Expr(Ref(first.name, "outputs", "success"))]),
                       ("expr-bool-item", [Expr(In("tag")), Expr(In("flag"))])):
